@@ -21,6 +21,12 @@ func (c *Counter) Fail() {
 	c.Fails++
 }
 
+// Error counts a test which failed without a failed assertion (e.g. runtime error).
+// It is not an assertion so Asserts is not incremented.
+func (c *Counter) Error() {
+	c.Fails++
+}
+
 func (c *Counter) Skip() {
 	c.Skips++
 }
